@@ -71,6 +71,9 @@ fn run_one(code: String) -> String {
 
 fn oneline(s: &str) -> String {
     let t: String = s.chars().map(|c| if c == '\n' || c == '\r' { ' ' } else { c }).collect();
+    if t.starts_with("K AST ") {
+        return t; // a parse tree is consumed by a parser on the other side: never truncated
+    }
     t.chars().take(4000).collect()
 }
 
